@@ -1,0 +1,44 @@
+//go:build verif
+
+package compose
+
+import (
+	"context"
+
+	"github.com/cloudwego/eino/callbacks"
+	icb "github.com/cloudwego/eino/internal/callbacks"
+)
+
+// Re-exports for the external harness module of the verification framework (/verif,
+// property C10): internal/callbacks cannot be imported from outside this module.
+
+// VerifC10CtxWithManager see internal/callbacks.VerifC10CtxWithManager.
+func VerifC10CtxWithManager(ctx context.Context, info *callbacks.RunInfo, hs []callbacks.Handler, global []callbacks.Handler) context.Context {
+	return icb.VerifC10CtxWithManager(ctx, info, hs, global)
+}
+
+// VerifC10AppendHandlers is internal/callbacks.AppendHandlers (what initGraphCallbacks and
+// initNodeCallbacks call).
+func VerifC10AppendHandlers(ctx context.Context, info *callbacks.RunInfo, hs ...callbacks.Handler) context.Context {
+	return icb.AppendHandlers(ctx, info, hs...)
+}
+
+// VerifC10Peek see internal/callbacks.VerifC10Peek.
+func VerifC10Peek(ctx context.Context) (handlers []callbacks.Handler, global []callbacks.Handler, info *callbacks.RunInfo, ok bool) {
+	return icb.VerifC10Peek(ctx)
+}
+
+// VerifC10Selected see internal/callbacks.VerifC10Selected.
+func VerifC10Selected(ctx context.Context, timing callbacks.CallbackTiming) ([]callbacks.Handler, *callbacks.RunInfo, bool) {
+	return icb.VerifC10Selected(ctx, timing)
+}
+
+// VerifC10InitNodeCallbacks / VerifC10InitGraphCallbacks run the option extraction of
+// compose/utils.go for a node key / for the graph itself (name is the node's / graph's name).
+func VerifC10InitNodeCallbacks(ctx context.Context, key, name string, opts ...Option) context.Context {
+	return initNodeCallbacks(ctx, key, &nodeInfo{name: name}, nil, opts...)
+}
+
+func VerifC10InitGraphCallbacks(ctx context.Context, name string, opts ...Option) context.Context {
+	return initGraphCallbacks(ctx, &nodeInfo{name: name}, nil, opts...)
+}
